@@ -29,6 +29,7 @@ mod adevgen;
 mod mac;
 mod nbdev;
 mod oracle;
+mod refcodec;
 mod macgen;
 mod macsuites;
 mod fakechip;
